@@ -387,6 +387,41 @@ Section Refine.
     rewrite Nat2Z.id. rewrite nth_error_app2 by lia. now rewrite Nat.sub_diag.
   Qed.
 
+  (* the private pop (critical section), on any well-formed slice: the
+     emptiness re-check under the lock makes it total *)
+  Lemma pop_spec c els :
+    zlen els < Bnd ->
+    pop V nilv isnil (mk c els) =
+      if zlen els =? 0 then Ok (mk c els, SVal nilv, false)
+      else if k_ord c then
+        match els with
+        | v :: t => Ok (mk c t, SVal v, negb (isnil v))
+        | [] => Ok (mk c els, SVal nilv, false)
+        end
+      else
+        match rev els with
+        | v :: t => Ok (mk c (rev t), SVal v, negb (isnil v))
+        | [] => Ok (mk c els, SVal nilv, false)
+        end.
+  Proof.
+    intros Hb. pose proof (zlen_nonneg els) as Hnn.
+    unfold pop. cbn [config mk bind]. fold (mk c els). unfold g_pop. cbv beta zeta.
+    rewrite mk_ulen by lia.
+    destruct (Z.eqb_spec (zlen els) 0) as [E0|E0]; [reflexivity|].
+    destruct (k_ord c) eqn:Eo.
+    - destruct els as [|v t]; [exfalso; apply E0; reflexivity|]. reflexivity.
+    - rewrite mk_zlen. w64. replace (1 + zlen els - 1) with (zlen els) by lia.
+      destruct (rev els) as [|v t] eqn:Er.
+      { apply (f_equal (@rev V)) in Er. rewrite rev_involutive in Er. subst els. exfalso; apply E0; reflexivity. }
+      assert (Eels : els = rev t ++ [v]).
+      { apply (f_equal (@rev V)) in Er. rewrite rev_involutive in Er. exact Er. }
+      subst els. rewrite <- mk_snoc.
+      replace (zlen (rev t ++ [v])) with (zlen (mk c (rev t))) by (rewrite mk_zlen, zlen_snoc; lia).
+      rewrite znth_app_last.
+      unfold zlen at 1. rewrite Nat2Z.id. rewrite firstn_app, Nat.sub_diag, firstn_all. cbn [firstn]. rewrite app_nil_r.
+      reflexivity.
+  Qed.
+
   Lemma step_pop m c els :
     cap_ok c (zlen els) -> zlen els <= m -> m < Bnd ->
     refines_step m c els OPop.
@@ -402,27 +437,20 @@ Section Refine.
     { assert (els = []) by (destruct els; [reflexivity|rewrite zlen_cons in E0; pose proof (zlen_nonneg els); lia]).
       subst els. exists c, [], (RVal (SVal nilv) false), (XVal nilv false).
       destruct (k_ord c); repeat split; auto; lia. }
-    unfold pop. cbn [config mk bind]. fold (mk c els). unfold g_pop.
+    rewrite pop_spec by lia. destruct (Z.eqb_spec (zlen els) 0); [contradiction|].
     destruct (k_ord c) eqn:Eo.
-    - (* FIFO *)
-      destruct els as [|v t]; [exfalso; apply E0; reflexivity|].
-      cbn [mk map znth Z.ltb Z.compare Z.to_nat Pos.to_nat Pos.iter_op Nat.add nth_error firstn skipn app Z.add Pos.add].
+    - destruct els as [|v t]; [exfalso; apply E0; reflexivity|]. cbn [bind].
       exists c, t, (RVal (SVal v) (negb (isnil v))), (XVal v (negb (isnil v))).
       rewrite zlen_cons in *. pose proof (zlen_nonneg t).
       split; [reflexivity|]. split; [destruct Hc as [Hc|[? ?]]; [left; assumption|right; split; lia]|].
       split; [lia|]. split; reflexivity.
-    - (* LIFO *)
-      rewrite mk_zlen. pose proof (zlen_nonneg els) as Hnn. w64. replace (1 + zlen els - 1) with (zlen els) by lia. clear Hnn.
-      destruct (rev els) as [|v t] eqn:Er.
+    - destruct (rev els) as [|v t] eqn:Er.
       { apply (f_equal (@rev V)) in Er. rewrite rev_involutive in Er. subst els. exfalso; apply E0; reflexivity. }
       assert (Eels : els = rev t ++ [v]).
       { apply (f_equal (@rev V)) in Er. rewrite rev_involutive in Er. exact Er. }
-      subst els. rewrite <- mk_snoc.
-      replace (zlen (rev t ++ [v])) with (zlen (mk c (rev t))) by (rewrite mk_zlen, zlen_snoc; lia).
-      rewrite znth_app_last.
-      unfold zlen at 1. rewrite Nat2Z.id. rewrite firstn_app, Nat.sub_diag, firstn_all. cbn [firstn]. rewrite app_nil_r.
+      cbn [bind].
       exists c, (rev t), (RVal (SVal v) (negb (isnil v))), (XVal v (negb (isnil v))).
-      rewrite zlen_snoc in *. pose proof (zlen_nonneg (rev t)).
+      subst els. rewrite zlen_snoc in *. pose proof (zlen_nonneg (rev t)).
       split; [reflexivity|]. split; [destruct Hc as [Hc|[? ?]]; [left; assumption|right; split; lia]|].
       split; [lia|]. split; reflexivity.
   Qed.
